@@ -96,6 +96,21 @@ def jobs(tier):
                         ('old_root_values_kept', 'sp_assigns_upd(%s, %s->assigns, %s->assigns.n, 0) || %s->assigns.n > %s.n' % (A0, SAT, SAT, SAT, A0))],
                assigns='__exc, xt_ncl, __CPROVER_object_whole(xt_cl), %s->assigns, self->assigns, self->is_contained_in' % SAT),
       replace=[NEW_VAR, NEW_CLAUSE, EXO, BIND])
+    # ---- new_var(lits, vals): the domain is exactly vals[i] -> lits[i]; the propositional variables know the object variable
+    J('new_var_lits', 'smt_ov_theory_new_var__vec_lit__vec_var_valuep',
+      Contract(requires=[FRESH + ' && __CPROVER_is_fresh(lits, sizeof(*lits)) && __CPROVER_is_fresh(vals, sizeof(*vals))', NET,
+                         'lits->n >= 1 && lits->n <= XT_DOM && vals->n == lits->n && self->assigns.n <= 2 && self->is_contained_in.n == 0',
+                         'sp_lits_ok(%s->assigns, *lits, XT_DOM)' % SAT,
+                         'vals->e[0] != 0 && (vals->n < 2 || vals->e[1] != 0) && (vals->n < 3 || vals->e[2] != 0)',
+                         '(vals->n < 2 || vals->e[0] != vals->e[1]) && (vals->n < 3 || (vals->e[0] != vals->e[2] && vals->e[1] != vals->e[2]))'],
+               ensures=[('noexcept', '__exc == 0'),
+                        ('returns_new_index', '%s == %s && self->assigns.n == %s + 1' % (R, OLD('self->assigns.n'), OLD('self->assigns.n'))),
+                        ('domain_is_exactly_the_given_pairs', 'sv_dom_of_pairs(%s, *lits, *vals)' % NEWDOM),
+                        ('propositional_variables_know_the_object_variable',
+                         'sv_contained(self->is_contained_in, sp_var(lits->e[0]), %s) && (lits->n < 2 || sv_contained(self->is_contained_in, sp_var(lits->e[1]), %s)) && (lits->n < 3 || sv_contained(self->is_contained_in, sp_var(lits->e[2]), %s))' % (R, R, R)),
+                        ('network_untouched', 'sp_assigns_same(%s, %s->assigns) && xt_ncl == 0' % (A0, SAT))],
+               assigns='__exc, self->assigns, self->is_contained_in'),
+      replace=[])
     # ---- allows(v, val): the value's literal, FALSE_lit outside the domain
     J('allows', 'smt_ov_theory_allows__U__var_value',
       Contract(requires=[FRESH + ' && __CPROVER_is_fresh(v, sizeof(*v)) && __CPROVER_is_fresh(val, sizeof(*val))', NET,
@@ -133,4 +148,4 @@ def jobs(tier):
 
 
 # what the evidence file says is NOT decided by this module, and what it assumes
-INFO = {'not_under_contract': ['new_var(lits, vals)', 'var_flaw / solver::new_enum call sites', 'ov_theory propagate / push / pop', 'expression cache hits of ov_theory::new_eq'], 'assumptions': ['sat_core::new_var / new_clause / new_exct_one / new_eq / new_conj / new_disj behave as their C13 contracts say (proved there on the same source, restated here over the fields this unit sees)']}
+INFO = {'not_under_contract': ['var_flaw / solver::new_enum call sites', 'ov_theory propagate / push / pop', 'expression cache hits of ov_theory::new_eq'], 'assumptions': ['sat_core::new_var / new_clause / new_exct_one / new_eq / new_conj / new_disj behave as their C13 contracts say (proved there on the same source, restated here over the fields this unit sees)']}
